@@ -26,7 +26,7 @@ VERIF = os.path.abspath(os.path.join(os.path.dirname(__file__), '..'))
 REPO = os.environ.get('VERIF_REPO', '/repo')
 LEAN_DIR = os.environ.get('VERIF_LEAN_DIR') or os.path.join(VERIF, 'lean')
 GENERATED_DIR = os.path.join(LEAN_DIR, 'Tranp', 'Generated')
-EVIDENCE_DIR = os.path.join(VERIF, 'evidence')
+EVIDENCE_DIR = os.environ.get('VERIF_EVIDENCE_DIR') or os.path.join(VERIF, 'evidence')  # seedtest.sh points this at a scratch directory
 REPLAY_DIR = os.path.join(VERIF, 'replays')
 CORPUS_DIR = os.path.join(VERIF, 'corpus')
 KNOWN_FINDINGS = os.path.join(VERIF, 'known_findings.jsonl')
